@@ -67,6 +67,11 @@ ASSUMPTIONS = [
     'keeps `_nonzero`/`_index` (VLE) and `_nonzero`/`_index`/`_chemical` (SLE) per object, and `vle.setup` / `sle.setup` '
     'compare the reuse decision and the index with the real object',
     'for a stream that also has s/L rows, a VLE call only owns the l and g rows; the placement clauses are evaluated on those',
+    'LLE remembered-coefficients branch: the adapter records the RAW Rachford-Rice root inside phase_fraction (both root '
+    'functions of binary_phase_fraction are wrapped) and the model applies as_valid_fraction itself (path cacheRaw, theorem '
+    'lle_cached_nonneg_for_every_root); the generator draws binary pairs whose composition drifts across the edge of the '
+    'remembered two-liquid envelope between cached calls (edit `edge`, tags lle:cache:raw-root:outside), under the default and '
+    'under a raised public composition_cache_tolerance (`ctol=`)',
     'oracle tolerances are PER CHEMICAL: totals rtol 1e-9 of the chemical\'s own total (exact when absent); a phase flow of '
     'chemical i must be >= -1e-12 * (total of chemical i): clip / set_flows / correction steps are sign-exact in binary64, only '
     '(z - mol_L)*F_mol, m - F*x/(1-x) and x/total*total round by a few ulp of the chemical\'s own flow',
@@ -459,11 +464,31 @@ def _install():
         return r
     LLE.solve_lle_liquid_mol = solve_lle_liquid_mol
 
+    # the raw Rachford-Rice root, before `as_valid_fraction`: `phase_fraction` is plain Python and looks both root
+    # functions up in its module at call time
+    from thermosteam.equilibrium import binary_phase_fraction as bpf
+    for nm in ('compute_phase_fraction_2N', 'solve_phase_fraction_Rashford_Rice'):
+        def mk(orig):
+            def f(*a, **k):
+                r = orig(*a, **k)
+                rec = _REC
+                if rec is not None and rec.lle_info is not None and rec.lle_info.get('in_pf'):
+                    try: rec.lle_info['raw'] = float(r)
+                    except Exception: pass
+                return r
+            return f
+        setattr(bpf, nm, mk(getattr(bpf, nm)))
+
     o_pf = lle_mod.phase_fraction
     def phase_fraction(zs, Ks, guess=None, za=0., zb=0.):
         rec = _REC
-        r = o_pf(zs, Ks, guess, za, zb)
-        if rec is not None and rec.lle_info is not None and 'llesolve' not in rec.ctx:
+        top = rec is not None and rec.lle_info is not None and 'llesolve' not in rec.ctx
+        if top: rec.lle_info['in_pf'] = True; rec.lle_info.pop('raw', None)
+        try:
+            r = o_pf(zs, Ks, guess, za, zb)
+        finally:
+            if top: rec.lle_info['in_pf'] = False
+        if top:
             rec.lle_info['phi'] = float(r); rec.lle_info['K'] = np.array(Ks, float)
         return r
     lle_mod.phase_fraction = phase_fraction
@@ -488,6 +513,10 @@ def _install():
             if top_chemical in ids: top = str(idx[ids.index(top_chemical)])
         if 'molL' in info:
             rec.tag('lle:solve'); rec.emit(f'lle.write solve top={top} ' + rec.fl(rec.expand(idx, info['molL'])))
+        elif 'phi' in info and 'raw' in info:
+            # the model clips the raw root itself (`as_valid_fraction`); the value the code used is never shown to it
+            rec.tag('lle:cache:raw-root' + (':outside' if not 0.0 <= info['raw'] <= 1.0 else ''))
+            rec.emit(f'lle.write cacheraw top={top} {fbits(info["raw"])} ' + rec.fl(rec.expand(idx, info['K'])))
         elif 'phi' in info:
             rec.tag('lle:cache'); rec.emit(f'lle.write cache top={top} {fbits(info["phi"])} ' + rec.fl(rec.expand(idx, info['K'])))
         else:
@@ -723,6 +752,31 @@ def run_ops(ops):
             outs.append(rec.state_ans())
             continue
         if s is None: continue
+        if op == 'edge':
+            kw = _kw(t[1:])
+            # edit for binary LLE histories: move the composition to the edge of the two-liquid envelope that the stream's
+            # LLE object REMEMBERS (phi = 0 or phi = 1 of the Rachford-Rice equation with its `_K`), plus `eps` in mole
+            # fraction of the first LLE chemical, by adding or removing that chemical only.  An input-construction helper:
+            # nothing of it reaches the oracle.
+            try:
+                eqo = s.lle
+                K = np.asarray(eqo._K, float)
+                chems = [c.ID for c in eqo._lle_chemicals]
+                if K.size != 2 or len(chems) != 2: tags.append('skip:edge-not-binary'); continue
+                if not (np.isfinite(K).all() and K[0] > 0 and K[1] > 0 and K[0] != K[1] and K.max() < 1e15):
+                    tags.append('skip:edge-single-liquid'); continue      # the remembered K describe one liquid only
+                side, eps = kw['side'], float(kw['eps'])
+                z1 = (1 - K[1]) / (K[0] - K[1]) if side == '0' else (1 / K[1] - 1) / (1 / K[1] - 1 / K[0])
+                z1 = z1 + eps
+                if not 0 < z1 < 1: tags.append('skip:edge-outside'); continue
+                tot = {c: sum(float(s.imol[ph, c]) for ph in s.phases) for c in chems}
+                target = z1 / (1 - z1) * tot[chems[1]]
+                f = target / tot[chems[0]]
+                for ph in s.phases: s.imol[ph, chems[0]] = float(s.imol[ph, chems[0]]) * f
+                tags.append('edit:edge')
+            except Exception as e:
+                tags.append('skip:edge:' + type(e).__name__)
+            continue
         if op in ('add', 'zero', 'scale'):
             # edits between two calls of a history; they go through `imol` only, so the stream keeps its cached
             # VLE / LLE / SLE objects (and what those remember: `_nonzero`, `_index`, `_chemical`, `_K`, ...)
@@ -797,6 +851,7 @@ def run_ops(ops):
                 if kw.get('cache') == '0': args['use_cache'] = False
                 eqo = s.lle
                 eqo.method = {'de': 'differential evolution', 'shgo': 'shgo'}.get(kw.get('method'), eqo.default_method)
+                if 'ctol' in kw: eqo.composition_cache_tolerance = float(kw['ctol'])      # public option of LLE
                 call = lambda: eqo(**args)
             elif op == 'sle':
                 args = {}
@@ -881,7 +936,7 @@ def run_ops(ops):
             light_ok = all(after['l'][i] == 0.0 for i in pkg['light'])
             heavy_ok = all(after['g'][i] == 0.0 for i in pkg['heavy'])
         flags = f'cons={int(cons)} nonneg={int(nonneg)} light={int(light_ok)} heavy={int(heavy_ok)}'
-        spec = op + ':' + '-'.join(sorted(k for k in kw if k not in ('solute', 'top', 'cache', 'method')))
+        spec = op + ':' + '-'.join(sorted(k for k in kw if k not in ('solute', 'top', 'cache', 'method', 'ctol')))
         pre_ok = all(before[r][i] >= -tol_i[i] for r in ROWS for i in range(nchem))
         if not pre_ok:
             # the property quantifies over non-negative flows; a reactive flash (excluded) can leave a negative
@@ -1193,6 +1248,40 @@ def _edit(rng, pkgname, phases, present):
     return None
 
 
+def envelope_history(rng):
+    """Binary liquid-liquid pair, cached `lle` calls whose composition drifts across the edge of the two-liquid envelope
+    the LLE object remembers: just inside -> just outside by less than the composition cache tolerance (both edges, both
+    directions), and far outside with a raised `composition_cache_tolerance` (public option)."""
+    pkgname, pair = rng.choice([('B', [0, 4]), ('B', [0, 4]), ('B', [0, 4]), ('B', [0, 2]), ('B', [0, 3]), ('D', [0, 1])])
+    n = len(PKG_IDS[pkgname])
+    f = lambda x: float(f'{x:.6g}')
+    tot = f(10 ** rng.uniform(-1, 3)); a = rng.uniform(0.6, 0.95)       # inside the two-liquid envelope of these pairs
+    rows = {'l': [0.0] * n, 'L': [0.0] * n}
+    rows[rng.choice('lL')][pair[0]] = f(tot * a); rows[rng.choice('lL')][pair[1]] = f(tot * (1 - a))
+    T = round(rng.uniform(285, 340), 2)
+    top = rng.choice(['', '', f' top={PKG_IDS[pkgname][pair[0]]}', f' top={PKG_IDS[pkgname][pair[1]]}'])
+    ops = [f'new {pkgname} multi lL {T} 101325.0 {_fmt_rows(rows)}', f'lle T={T}{top}']
+    if rng.random() < 0.6:
+        for _ in range(rng.randrange(1, 4)):
+            side = rng.choice('01'); inside = 1 if side == '0' else -1      # direction into the envelope
+            if rng.random() < 0.5:
+                d1, d2 = 10 ** rng.uniform(-6.5, -5.5), 10 ** rng.uniform(-6.5, -5.5)     # d1 + d2 < default tolerance 1e-5
+                opt = ''
+            else:       # a wider drift under a raised (public) composition_cache_tolerance
+                d1, d2 = 10 ** rng.uniform(-4, -2.5), 10 ** rng.uniform(-4, -2.3)
+                opt = f' ctol={rng.choice([0.01, 0.05, 0.1])}'
+            first, second = (inside * d1, -inside * d2) if rng.random() < 0.8 else (-inside * d1, inside * d2)
+            ops += [f'edge side={side} eps={first!r}', f'lle T={T}{top}{opt}',        # just inside the envelope (solver or cache)
+                    f'edge side={side} eps={second!r}', f'lle T={T}{top}{opt}']       # just outside: answered from the cache
+    else:
+        ctol = rng.choice([0.1, 0.05, 0.5, 1e-3])
+        for _ in range(rng.randrange(1, 4)):
+            i = rng.choice(pair)
+            e = f'add {rng.choice("lL")}:{i}:{f(tot * 10 ** rng.uniform(-2, 1.2))!r}' if rng.random() < 0.8 else f'scale {rng.choice([0.5, 3.0])}'
+            ops += [e, f'lle T={T}{top} ctol={ctol}']
+    return Case(ops, {'history': 'lle-envelope-edge'})
+
+
 def _rvle_op(rng):
     T = round(rng.uniform(352, 372), 2); P = float(f'{10 ** rng.uniform(4.85, 5.1):.6g}')
     spec = f'T={T} P={P}' if rng.random() < 0.8 else rng.choice([f'T={T} V={round(rng.uniform(0.2, 0.8), 2)}',
@@ -1226,6 +1315,7 @@ def history_case(rng, fam=None, pkgname=None):
     """2-4 calls on ONE stream through its cached solver objects, flows edited in between"""
     fam = fam or rng.choice(['vle'] * 5 + ['lle', 'lle', 'sle', 'sle', 'vlle', 'mixed', 'mixed'])
     if pkgname is None and fam in ('vle', 'mixed') and rng.random() < 0.25: return reactive_history(rng)
+    if pkgname is None and fam == 'lle' and rng.random() < 0.5: return envelope_history(rng)
     pkgname = pkgname or (rng.choice('DDDC') if fam == 'sle' else rng.choice('ABBCCCDE'))
     n = len(PKG_IDS[pkgname])
     subset = [i for i in range(n) if rng.random() < 0.7] or [rng.randrange(n)]
@@ -1264,6 +1354,7 @@ def grid_histories(rng):
             for _ in range(2):
                 out.append(history_case(rng, fam, pkgname))
     for _ in range(6): out.append(reactive_history(rng))
+    for _ in range(30): out.append(envelope_history(rng))
     # the two shapes reported by the coordinator, spelled out
     out.append(Case(['new C multi gl 330.0 101325.0 g:0.0,0.0,0.0,2.0,1.0,0.0,0.0|l:10.0,5.0,1.0,0.0,0.0,1.0,0.5',
                      'vle T=350.0 P=101325.0', 'add l:3:0.75,l:4:0.25,g:5:0.5,g:6:0.125', 'vle T=350.0 P=101325.0',
